@@ -483,6 +483,8 @@ class Index(IndexBase):
         for key, value in state[1].items():
             setattr(self, key, value)
         self._labels.flags.writeable = False
+        if self._positions is not None:
+            self._positions.flags.writeable = False
 
     def __deepcopy__(self: I, memo: tp.Dict[int, tp.Any]) -> I:
         if self._recache:
